@@ -950,89 +950,114 @@ func TestVerif_C10_announce(t *testing.T) {
 // itself applies. A registration is aged to just under / just over the lifetime named in the New
 // (then Update) message and the sweeper is run: it has to survive / be removed.
 func TestVerif_C10_lifetimes(t *testing.T) {
-	rec := vh.NewRec("C10", "lifetimes", "for every transport x family: ingest (New), age the registration to requested lifetime -/+ 60 s, sweep: usable before, forgotten after; again with the registration used the way connection handling uses it (MarkActive, which publishes Update, then the real Proxy with an unreachable covert). Time is advanced by shifting the recorded registration time backwards. Exhaustive over 4 transports x 2 families x {unused, used}. Plus every history [ingest] + up to 4 (thorough: 5) operations from {ingest the same message again, mark active, advance 5 min, 7 min, 2 h 59 min, 3 h 5 min, sweep} + [sweep]: at every sweep point a registration the station still hands out must have a live session in the modelled detector (announcements actually published, each counted from the moment it was published, the longer one kept; 60 s slack). Non-trivial: every case.")
+	rec := vh.NewRec("C10", "lifetimes", "for every transport x family: ingest (New), age the registration to requested lifetime -/+ 60 s, sweep: usable before, forgotten after; again with the registration used the way connection handling uses it (MarkActive, which publishes Update, then the real Proxy with an unreachable covert). Time is advanced by shifting the recorded registration time backwards. The manager is built through the production path (ParseConfig of a station TOML + NewRegistrationManager) for three configurations (plain; longer lifetime keys + unknown keys; shorter lifetime keys) and the requested lifetime must equal the lifetime the registry that path built applies (timeoutUnused / timeoutActive). Exhaustive over 3 configurations x 4 transports x 2 families x {unused, used}. Plus every history [ingest] + up to 4 (thorough: 5) operations from {ingest the same message again, mark active, advance 5 min, 7 min, 2 h 59 min, 3 h 5 min, sweep, sweep during which another registration arrives and is validated (placed at the debug line the sweeper writes between its phases)} + [sweep]: at every sweep point a registration the station still hands out must have a live session in the modelled detector (announcements actually published, each counted from the moment it was published, the longer one kept; 60 s slack). Non-trivial: every case.")
 	defer rec.Flush()
-	rec.Require("unused", "used", "history:duplicate-ingest", "history:sweep-past-detector-lifetime", "history:used")
+	rec.Require("unused", "used", "station-config:plain", "station-config:longer-lifetimes+unknown-keys", "station-config:shorter-lifetimes", "history:duplicate-ingest", "history:sweep-past-detector-lifetime", "history:used", "history:arrival-during-sweep-admitted")
 	rec.SetExhaustive(true)
 	w := c10NewWorld(t, rec)
-	e := w.e
+	defaultEnv := w.e
 	const slack = 60 * time.Second
 	idx := 0
-	for _, tp := range c07TransportsAll {
-		for _, v6 := range []bool{false, true} {
-			for _, used := range []bool{false, true} {
-				idx++
-				if !vh.Mine(idx) {
-					continue
-				}
-				c := c07Case{Live: "notlive", Conf: c07Conf{EnableV4: true, EnableV6: true, Transports: append([]int(nil), c07TransportsAll...)}}
-				c.Msg = c07Msg{HasSecret: true, Secret: vh.Hex(vSecret(900 + idx)), HasPayload: true, Source: 2, HasRegAddr: true, RegAddr: c07IP("198.51.100.7"),
-					LibVer: 4, Gen: 957, Transport: tp, HasCovert: true, Covert: "192.0.2.10:443", V4: 1, V6: 0, Flags: 0}
-				if v6 {
-					c.Msg.V4, c.Msg.V6 = 0, 1
-				}
-				switch pb.TransportType(tp) {
-				case pb.TransportType_Prefix:
-					c.Msg.Params = c07Params{Kind: "prefix", PrefixID: 2}
-				case pb.TransportType_DTLS:
-					c.Msg.Params = c07Params{Kind: "dtls"}
-				default:
-					c.Msg.Params = c07Params{Kind: "generic"}
-				}
-				class := "unused"
-				if used {
-					class = "used"
-				}
-				rec.Case(true, vh.Digest(map[string]any{"case": c, "used": used}), map[string]any{"case": c, "used": used}, class)
-				e.apply(c.Conf, c.Live)
-				w.srv.Take()
-				if _, err := e.deliver(c07Build(c.Msg)); err != nil {
-					t.Fatalf("harness problem: %v", err)
-				}
-				valid := e.validRegs()
-				pubs := w.srv.Take()
-				if herr := c10ClientHook.Err(); herr != nil {
-					t.Fatalf("harness problem: %v", herr)
-				}
-				if len(valid) != 1 || len(pubs) != 1 {
-					t.Fatalf("harness problem: expected one admitted registration and one New message, got %d / %d", len(valid), len(pubs))
-				}
-				m, v := w.decode(pubs[0])
-				if v != nil {
-					rec.Violation(t, v.Key, c, "%s", v.Msg)
-					continue
-				}
-				if used {
-					w.use(valid[0])
-					up := w.srv.Take()
-					if len(up) != 1 {
-						rec.Violation(t, "update:count", c, "MarkActive published %d messages", len(up))
+	// The manager is built through the production path (ParseConfig of a station TOML, then
+	// NewRegistrationManager); the TOML may carry keys this tree does not know. The lifetimes the
+	// station APPLIES are read from the registry that path built.
+	for _, variant := range c10StationConfigs {
+		e := c07NewEnvProd(t, variant.toml, true)
+		w.e = e
+		rec.Class("station-config:" + variant.name)
+		for _, tp := range c07TransportsAll {
+			for _, v6 := range []bool{false, true} {
+				for _, used := range []bool{false, true} {
+					idx++
+					if !vh.Mine(idx) {
 						continue
 					}
-					if m, v = w.decode(up[0]); v != nil {
+					c := c07Case{Live: "notlive", Conf: c07Conf{EnableV4: true, EnableV6: true, Transports: append([]int(nil), c07TransportsAll...)}}
+					c.Msg = c07Msg{HasSecret: true, Secret: vh.Hex(vSecret(900 + idx)), HasPayload: true, Source: 2, HasRegAddr: true, RegAddr: c07IP("198.51.100.7"),
+						LibVer: 4, Gen: 957, Transport: tp, HasCovert: true, Covert: "192.0.2.10:443", V4: 1, V6: 0, Flags: 0}
+					if v6 {
+						c.Msg.V4, c.Msg.V6 = 0, 1
+					}
+					switch pb.TransportType(tp) {
+					case pb.TransportType_Prefix:
+						c.Msg.Params = c07Params{Kind: "prefix", PrefixID: 2}
+					case pb.TransportType_DTLS:
+						c.Msg.Params = c07Params{Kind: "dtls"}
+					default:
+						c.Msg.Params = c07Params{Kind: "generic"}
+					}
+					class := "unused"
+					if used {
+						class = "used"
+					}
+					rec.Case(true, vh.Digest(map[string]any{"case": c, "used": used}), map[string]any{"case": c, "used": used}, class)
+					e.apply(c.Conf, c.Live)
+					w.srv.Take()
+					if _, err := e.deliver(c07Build(c.Msg)); err != nil {
+						t.Fatalf("harness problem: %v", err)
+					}
+					valid := e.validRegs()
+					pubs := w.srv.Take()
+					if herr := c10ClientHook.Err(); herr != nil {
+						t.Fatalf("harness problem: %v", herr)
+					}
+					if len(valid) != 1 || len(pubs) != 1 {
+						t.Fatalf("harness problem: expected one admitted registration and one New message, got %d / %d", len(valid), len(pubs))
+					}
+					m, v := w.decode(pubs[0])
+					if v != nil {
 						rec.Violation(t, v.Key, c, "%s", v.Msg)
 						continue
 					}
-				}
-				life := time.Duration(m.GetTimeoutNs())
-				if life < 2*slack {
-					rec.Violation(t, "lifetime:"+m.GetOperation().String(), c, "requested lifetime %v", life)
-					continue
-				}
-				usable := func() bool { return len(e.rm.GetRegistrations(valid[0].PhantomIp)) == 1 }
-				e.vShiftAll(life - slack)
-				e.rm.RemoveOldRegistrations()
-				if !usable() {
-					rec.Violation(t, "lifetime:station-forgets-earlier", c, "%v announced with a lifetime of %v, but the station has forgotten the registration %v before that (used=%v)", m.GetOperation(), life, slack, used)
-					continue
-				}
-				e.vShiftAll(2 * slack)
-				e.rm.RemoveOldRegistrations()
-				if usable() {
-					rec.Violation(t, "lifetime:station-keeps-longer", c, "%v announced with a lifetime of %v, but the station still accepts the registration %v after that (used=%v): the detector no longer forwards the session", m.GetOperation(), life, slack, used)
+					if used {
+						w.use(valid[0])
+						up := w.srv.Take()
+						if len(up) != 1 {
+							rec.Violation(t, "update:count", c, "MarkActive published %d messages", len(up))
+							continue
+						}
+						if m, v = w.decode(up[0]); v != nil {
+							rec.Violation(t, v.Key, c, "%s", v.Msg)
+							continue
+						}
+					}
+					life := time.Duration(m.GetTimeoutNs())
+					applied := e.rm.registeredDecoys.timeoutUnused
+					if used {
+						applied = e.rm.registeredDecoys.timeoutActive
+					}
+					if life != applied {
+						rec.Violation(t, "lifetime:"+m.GetOperation().String(), c, "station configuration %q: %v asks the detector for %v, but the lifetime the station applies to a registration in that state (the sweeper's boundary in the registry NewRegistrationManager built) is %v", variant.name, m.GetOperation(), life, applied)
+						continue
+					}
+					if life < 2*slack {
+						rec.Violation(t, "lifetime:"+m.GetOperation().String(), c, "requested lifetime %v", life)
+						continue
+					}
+					usable := func() bool { return len(e.rm.GetRegistrations(valid[0].PhantomIp)) == 1 }
+					e.vShiftAll(life - slack)
+					e.rm.RemoveOldRegistrations()
+					if !usable() {
+						rec.Violation(t, "lifetime:station-forgets-earlier", c, "%v announced with a lifetime of %v, but the station has forgotten the registration %v before that (used=%v)", m.GetOperation(), life, slack, used)
+						continue
+					}
+					e.vShiftAll(2 * slack)
+					e.rm.RemoveOldRegistrations()
+					if usable() {
+						rec.Violation(t, "lifetime:station-keeps-longer", c, "%v announced with a lifetime of %v, but the station still accepts the registration %v after that (used=%v): the detector no longer forwards the session", m.GetOperation(), life, slack, used)
+					}
 				}
 			}
 		}
 	}
+	w.e = defaultEnv
 	c10EnumHistories(t, rec, w)
+}
+
+// station configurations for the lifetimes sub-check: what an operator's TOML may look like,
+// including keys this tree may or may not know
+var c10StationConfigs = []struct{ name, toml string }{
+	{"plain", "enable_v4 = true\nenable_v6 = true\n"},
+	{"longer-lifetimes+unknown-keys", "enable_v4 = true\nenable_v6 = true\nunused_reg_timeout = \"30m\"\nactive_reg_timeout = \"12h\"\nregistration_ttl = \"1h\"\nsome_future_flag = 7\n\n[some_future_section]\nx = 1\n"},
+	{"shorter-lifetimes", "enable_v4 = true\nenable_v6 = true\nunused_reg_timeout = \"5m\"\nactive_reg_timeout = \"2h\"\nunused_timeout = \"5m\"\nactive_timeout = \"2h\"\n"},
 }
